@@ -61,7 +61,7 @@ def k1_verdict(ctx):
     if not exp['ok']:
         return {'ok': False, 'why': 'expander does not build against /repo', 'log': exp['log']}
     cases = k1_verdict_corpus(ctx)
-    texts = [smgen.dsl_defn(d) for (_, d) in cases]
+    texts = [smgen.dsl_defn(d, vary=True) for (_, d) in cases]
     real = stages.expand(exp['bins'][False], texts)
     shards = [[] for _ in range(16)]
     for i, (_, d) in enumerate(cases):
